@@ -34,7 +34,7 @@ func genShape(t *rapid.T, pat, scale int, counted bool) Shape {
 	s := Shape{Pat: pat, Var: rapid.IntRange(0, 2).Draw(t, "var"), MaxBW: pick(t, "maxbw", int64(0), 0, 2*bigBW)}
 	nh := rapid.IntRange(0, 2).Draw(t, "halts")
 	for i := 0; i < nh; i++ {
-		s.Halts = append(s.Halts, Halt{At: genOffset(t, "halt_at", scale), Dur: pick(t, "halt_ms", int64(0), 0, 1, 2, 5, 20, 80), N: pick(t, "halt_n", int64(1), 1, 2, -1, 3)})
+		s.Halts = append(s.Halts, Halt{At: genOffset(t, "halt_at", scale), Dur: pick(t, "halt_ms", int64(0), 0, 1, 2, 5, 20, 60), N: pick(t, "halt_n", int64(1), 1, 2, -1, 3)})
 	}
 	nc := rapid.IntRange(0, 2).Draw(t, "closes")
 	if counted && nc == 0 {
@@ -87,7 +87,7 @@ func genConfig(t *rapid.T, scale int, counted bool) Config {
 	c := Config{
 		Up:      pick(t, "up", int64(0), 0, bigBW, 1<<30),
 		Down:    pick(t, "down", int64(0), 0, bigBW, 1<<30),
-		Latency: pick(t, "latency", int64(0), 0, 0, 1, 5, 20, 50),
+		Latency: pick(t, "latency", int64(0), 0, 0, 1, 5, 20, 40),
 	}
 	n := rapid.IntRange(1, 3).Draw(t, "shapes")
 	pats := rapid.Permutation([]int{0, 1, 2, 3}).Draw(t, "pats")
@@ -348,7 +348,44 @@ func genHistory(t *rapid.T, level string, maxSteps int, scales []int) Case {
 				}
 			}
 		case k < 15:
-			post(genConfig(t, scale, false))
+			cfg := genConfig(t, scale, false)
+			if active != nil && rapid.Bool().Draw(t, "same_patterns") {
+				// the same URL patterns with other actions: what a connection of the
+				// previous generation must not be shaped by
+				for i := range cfg.Shapes {
+					if i < len(active.Shapes) {
+						cfg.Shapes[i].Pat, cfg.Shapes[i].Var, cfg.Shapes[i].Regex = active.Shapes[i].Pat, active.Shapes[i].Var, nil
+					}
+				}
+				seen := map[int]bool{}
+				kept := cfg.Shapes[:0]
+				for _, sh := range cfg.Shapes {
+					if !seen[sh.Pat] {
+						seen[sh.Pat] = true
+						kept = append(kept, sh)
+					}
+				}
+				cfg.Shapes = kept
+			}
+			if level != "mitm" && next < 5 && rapid.IntRange(0, 2).Draw(t, "slow_upload") == 0 {
+				// the document arrives slowly; a connection is accepted meanwhile
+				prev := active
+				c.Steps = append(c.Steps, Step{Op: "post", Cfg: &cfg, During: []int{next}})
+				id := next
+				connCfg[id] = prev
+				open = append(open, id)
+				next++
+				if cfg.Valid() {
+					active = &cfg
+				}
+				// aimed at the new configuration's offsets, which must not apply to it
+				r := genResp(t, &cfg, scale, level == "e2e")
+				r.ReqClose = false
+				c.Steps = append(c.Steps, Step{Op: "resp", Conn: id, R: &r})
+				resps++
+				continue
+			}
+			post(cfg)
 		case k == 15 && active != nil:
 			post(*active) // the same document again: new counts, older connections keep out
 		case k < 19 && active != nil && len(active.Shapes) > 0:
@@ -369,6 +406,30 @@ func genHistory(t *rapid.T, level string, maxSteps int, scales []int) Case {
 		}
 		r := genResp(t, connCfg[open[0]], scale, level == "e2e")
 		c.Steps = append(c.Steps, Step{Op: "resp", Conn: open[0], R: &r})
+		if r.ReqClose {
+			open = open[1:]
+		}
+	}
+	// endings: a tunnel on a connection that has just served a matching response, or the listener
+	// closed (proxy shutdown) while a matching response is being written
+	switch ending := rapid.IntRange(0, 7).Draw(t, "ending"); {
+	case ending == 0 && level == "e2e" && len(open) > 0:
+		id := open[len(open)-1]
+		if connCfg[id] == active {
+			if a, b, ok := genPendingPair(t, connCfg[id], scale, true); ok {
+				c.Steps = append(c.Steps, Step{Op: "resp", Conn: id, R: &a}, Step{Op: "tunnel", Conn: id, R: &Resp{Body: b.Body, Seed: b.Seed}})
+			}
+		}
+	case ending <= 2 && len(open) > 0:
+		id := open[len(open)-1]
+		r := genResp(t, connCfg[id], scale, level == "e2e")
+		r.LClose, r.ReqClose = true, false
+		if level == "conn" && len(r.Splits) == 0 {
+			r.Splits = []int{(r.Head+r.Body)/3 + 1}
+		}
+		c.Steps = append(c.Steps, Step{Op: "resp", Conn: id, R: &r})
+		r2 := genResp(t, connCfg[id], scale, level == "e2e")
+		c.Steps = append(c.Steps, Step{Op: "resp", Conn: id, R: &r2})
 	}
 	return c
 }
@@ -472,6 +533,9 @@ func analyze(c Case) map[string]bool {
 		if r.ReqClose && r.Pat >= 0 && cfg.byPat(r.Pat) != nil && cfg == active {
 			cl["matching-request-asks-close"] = true
 		}
+		if r.LClose && r.Pat >= 0 && cfg.byPat(r.Pat) != nil && cfg == active && r.Start >= 0 {
+			cl["listener-closed-during-matching-response"] = true
+		}
 		if r.Pat < 0 || cfg.byPat(r.Pat) == nil {
 			cl["non-matching-response"] = true
 			return
@@ -541,9 +605,19 @@ func analyze(c Case) map[string]bool {
 	}
 	for _, st := range c.Steps {
 		switch st.Op {
+		case "tunnel":
+			if pending[st.Conn] {
+				cl["tunnel-after-pending-action"] = true
+			}
 		case "post":
 			if st.Cfg == nil {
 				continue
+			}
+			for _, id := range st.During {
+				if _, dup := conns[id]; !dup {
+					conns[id] = active
+					cl["connection-accepted-during-upload"] = true
+				}
 			}
 			if st.Cfg.Valid() {
 				epoch++
@@ -696,6 +770,36 @@ func fixedCases() []Case {
 			{Op: "resp", Conn: 0, R: &Resp{Pat: 1, Body: 2000, Seed: 44}},
 		}})
 	}
+	for _, level := range []string{"conn", "e2e"} {
+		// a configuration whose document is still uploading when a connection is accepted does not
+		// apply to that connection (same pattern in both, the new one closes at 300)
+		old := Config{Shapes: []Shape{{Pat: 1, Var: 1, Closes: []CloseAct{{At: 2000, N: -1}}}}}
+		neu := Config{Shapes: []Shape{{Pat: 1, Var: 1, Closes: []CloseAct{{At: 300, N: -1}}}}}
+		out = append(out, Case{Level: level, Steps: []Step{
+			{Op: "post", Cfg: &old}, {Op: "open", Conn: 0}, {Op: "post", Cfg: &neu, During: []int{1}},
+			{Op: "resp", Conn: 1, R: &Resp{Pat: 1, Body: 1000, Head: 60, Seed: 60, Splits: []int{256}}},
+			{Op: "resp", Conn: 0, R: &Resp{Pat: 1, Body: 1000, Head: 60, Seed: 61}},
+			{Op: "open", Conn: 2}, {Op: "resp", Conn: 2, R: &Resp{Pat: 1, Body: 1000, Head: 60, Seed: 62}},
+		}})
+		// the listener is closed (proxy shutdown) while a halted, globally limited matching response
+		// has writes ahead: it arrives as the model says, and so does the next one on that connection
+		lc := Config{Shapes: []Shape{{Pat: 1, Var: 1, MaxBW: 2 * bigBW, Halts: []Halt{{At: 200, Dur: 60, N: -1}}, Closes: []CloseAct{{At: 2500, N: 1}}}}}
+		out = append(out, Case{Level: level, Steps: []Step{
+			{Op: "post", Cfg: &lc}, {Op: "open", Conn: 0}, {Op: "open", Conn: 1},
+			{Op: "resp", Conn: 0, R: &Resp{Pat: 1, Body: 2000, Head: 50, Seed: 63, Splits: []int{150}, LClose: true}},
+			{Op: "resp", Conn: 0, R: &Resp{Pat: 1, Body: 500, Head: 50, Seed: 64}},
+			{Op: "resp", Conn: 1, R: &Resp{Pat: 1, Body: 3000, Head: 50, Seed: 65, Splits: []int{1000}}},
+		}})
+	}
+	// a CONNECT on a connection that has just served a matching response with actions still ahead:
+	// the tunnel's bytes match no shape; and the control: a tunnel on a fresh connection
+	tun := Config{Shapes: []Shape{{Pat: 1, Var: 1, Closes: []CloseAct{{At: 5000, N: -1}}, Halts: []Halt{{At: 3000, Dur: 30, N: -1}}}}}
+	out = append(out, Case{Level: "e2e", Steps: []Step{
+		{Op: "post", Cfg: &tun}, {Op: "open", Conn: 0}, {Op: "open", Conn: 1},
+		{Op: "tunnel", Conn: 1, R: &Resp{Body: 20000, Seed: 66}},
+		{Op: "resp", Conn: 0, R: &Resp{Pat: 1, Body: 500, Seed: 67}},
+		{Op: "tunnel", Conn: 0, R: &Resp{Body: 20000, Seed: 68}},
+	}})
 	out = append(out, one("e2e", Shape{Pat: 0, Var: 2, Closes: []CloseAct{{At: 900, N: -1}}},
 		Resp{Pat: 0, Start: 500, Body: 3000, Seed: 7, Star: true},
 		Resp{Pat: 0, Start: 0, P206: true, Body: 3000, Seed: 8, Star: true}))
@@ -818,7 +922,7 @@ func posterWorker(w *world, cfg Config, n int, stop <-chan struct{}) {
 			return
 		default:
 		}
-		w.post(cfg)
+		w.post(cfg, nil)
 		time.Sleep(50 * time.Microsecond)
 	}
 }
@@ -831,7 +935,7 @@ func runLockOnce(c LockCase, T time.Duration) kit.Verdict {
 		at = 5
 	}
 	cfg := Config{Shapes: []Shape{{Pat: 0, Halts: []Halt{{At: at, Dur: 0, N: -1}}}}}
-	w.post(cfg)
+	w.post(cfg, nil)
 	var lanes []Lane
 	for i := 0; i < c.Conns; i++ {
 		w.open(i, false)
@@ -881,7 +985,7 @@ var propLock = &kit.Prop[LockCase]{
 	Gen: func(t *rapid.T) LockCase {
 		return LockCase{
 			Conns:  rapid.IntRange(2, 4).Draw(t, "conns"),
-			Rounds: pick(t, "rounds", 200, 1000, 3000),
+			Rounds: pick(t, "rounds", 200, 1000, 2000),
 			Posts:  pick(t, "posts", 0, 50, 400),
 			Fire:   rapid.Bool().Draw(t, "fire"),
 		}
@@ -916,7 +1020,7 @@ func TestConn(t *testing.T) {
 	if kit.Race() {
 		t.Skip("sequential histories: nothing for the race detector")
 	}
-	propConn.Check(t, kit.N(150, 600))
+	propConn.Check(t, kit.N(120, 600))
 }
 
 func TestParallel(t *testing.T) {
